@@ -361,7 +361,7 @@ class SparselyBin(Factory, Container):
                 b = self.bin(q)
                 sub = self.bins.get(b)
                 if sub is None:
-                    sub = self.value.copy()
+                    sub = self.value.zero()
                     sub.fill(datum, weight)
                     # a new bin appears only if its fill did not raise (for rollback)
                     self.bins[b] = sub
